@@ -46,7 +46,7 @@ pub mod libc {
     #[verifier::external_body]
     pub unsafe fn ioctl(fd: i32, req: u64, arg: i32, Tracked(w): Tracked<&mut World>) -> (r: i32)
         ensures
-            fr_data(*old(w), *final(w)), final(w).cursor == old(w).cursor, final(w).faults == old(w).faults,
+            fr_libc(*old(w), *final(w)), final(w).cursor == old(w).cursor, final(w).faults == old(w).faults,
             r == 0 || r == -1,
             req == super::FICLONE as u64 ==> ({
                 let src = inode_of_raw(arg); let dst = inode_of_raw(fd);
@@ -180,13 +180,15 @@ impl File {
                     &&& final(w).faults == old(w).faults
                     &&& n <= old(buf)@.len()
                     &&& (n == 0 <==> (old(buf)@.len() == 0 || pos >= src.len()))
-                    &&& pos + n <= src.len()
+                    &&& (n > 0 ==> pos + n <= src.len())
                     &&& final(buf)@.subrange(0, n as int) == src.subrange(pos, pos + n)
                     &&& final(w).cursor[self.id()] == pos + n
+                    &&& final(w).eintr_left == old(w).eintr_left
                 },
                 Err(e) => {
                     &&& final(w).cursor[self.id()] == old(w).cursor[self.id()]
                     &&& final(w).faults == old(w).faults + (if e.spec_kind() == ErrorKind::Interrupted { 0nat } else { 1 })
+                    &&& (e.spec_kind() == ErrorKind::Interrupted ==> old(w).eintr_left > 0 && final(w).eintr_left == old(w).eintr_left - 1)
                 },
             },
     { unimplemented!() }
@@ -194,7 +196,7 @@ impl File {
     /// K-write_all: loops write(2) at the cursor until everything is written or an error occurs.
     #[verifier::external_body]
     pub fn write_all(&self, buf: &[u8], Tracked(w): Tracked<&mut World>) -> (r: std::result::Result<(), io::Error>)
-        ensures fr_data(*old(w), *final(w)),
+        ensures fr_data(*old(w), *final(w)), final(w).eintr_left == old(w).eintr_left,
             forall|i: FdId| i != self.id() ==> final(w).cursor[i] == old(w).cursor[i],
             forall|j: Inode| j != self.inode() ==> final(w).files[j] == old(w).files[j],
             match r {
@@ -246,7 +248,7 @@ impl File {
 /// Success clears set-user-ID/set-group-ID as Linux does (chown_mode keeps every other bit).
 #[verifier::external_body]
 pub fn fchown(fd: &File, uid: Option<u32>, gid: Option<u32>, Tracked(w): Tracked<&mut World>) -> (r: std::result::Result<(), io::Error>)
-    ensures fr_data(*old(w), *final(w)), final(w).cursor == old(w).cursor, final(w).faults == old(w).faults,
+    ensures fr_data(*old(w), *final(w)), final(w).eintr_left == old(w).eintr_left, final(w).cursor == old(w).cursor, final(w).faults == old(w).faults,
         match r {
             Ok(_) => {
                 let i = fd.inode(); let f = old(w).files[i];
@@ -271,7 +273,7 @@ pub fn pread(fd: &File, buf: &mut [u8], off: u64, Tracked(w): Tracked<&mut World
                 &&& final(w).faults == old(w).faults
                 &&& n <= old(buf)@.len()
                 &&& (n == 0 <==> (old(buf)@.len() == 0 || off >= src.len()))
-                &&& off + n <= src.len()
+                &&& (n > 0 ==> off + n <= src.len())
                 &&& final(buf)@.subrange(0, n as int) == src.subrange(off as int, off + n)
             },
             Err(_) => final(w).faults == old(w).faults + 1,
@@ -293,8 +295,27 @@ pub fn pwrite(fd: &File, buf: &[u8], off: u64, Tracked(w): Tracked<&mut World>) 
         },
 { unimplemented!() }
 
-pub open spec fn opt_or(o: Option<&mut u64>, dflt: nat) -> nat {
-    match o { Some(p) => *p as nat, None => dflt }
+/// errnos by which copy_file_range says "not available here" (an answer, not a failed step)
+pub open spec fn cfr_unsupported(e: Errno) -> bool { e == Errno::NOSYS || e == Errno::PERM || e == Errno::XDEV }
+
+/// effect of a successful copy_file_range of `n` of `len` requested bytes from position `pin` to `pout`
+pub open spec fn cfr_ok(o: World, f: World, infd: &File, outfd: &File, pin: int, pout: int, in_cur: bool, out_cur: bool, len: int, n: int) -> bool {
+    let src = o.files[infd.inode()].bytes;
+    &&& f.faults == o.faults
+    &&& 0 <= n <= len
+    &&& (n == 0 <==> (len == 0 || pin >= src.len()))
+    &&& (n > 0 ==> pin + n <= src.len())
+    &&& (in_cur ==> f.cursor[infd.id()] == pin + n)
+    &&& (out_cur ==> f.cursor[outfd.id()] == pout + n)
+    &&& (infd.inode() != outfd.inode() ==>
+            f.files == o.files.insert(outfd.inode(), fs_write(o.files[outfd.inode()], pout, sub(src, pin, n))))
+    &&& (forall|j: Inode| j != outfd.inode() ==> f.files[j] == o.files[j])
+    &&& f.trace == o.trace.push(Event::Write(outfd.inode(), pout, n))
+}
+/// a failed copy_file_range changes nothing (but the fault count, unless the answer is "unsupported")
+pub open spec fn cfr_err(o: World, f: World, e: Errno) -> bool {
+    &&& f.faults == o.faults + (if cfr_unsupported(e) { 0nat } else { 1 })
+    &&& f.files == o.files && f.trace == o.trace && f.cursor == o.cursor
 }
 
 /// K-cfr: copy_file_range(2).  Any errno is possible; a successful call may move any 1..=len bytes
@@ -302,29 +323,21 @@ pub open spec fn opt_or(o: Option<&mut u64>, dflt: nat) -> nat {
 #[verifier::external_body]
 pub fn copy_file_range(infd: &File, in_off: Option<&mut u64>, outfd: &File, out_off: Option<&mut u64>, len: usize, Tracked(w): Tracked<&mut World>)
     -> (r: std::result::Result<usize, Errno>)
-    ensures fr_data(*old(w), *final(w)),
+    ensures fr_data(*old(w), *final(w)), final(w).eintr_left == old(w).eintr_left,
         forall|i: FdId| i != infd.id() && i != outfd.id() ==> final(w).cursor[i] == old(w).cursor[i],
         in_off is Some ==> final(w).cursor[infd.id()] == old(w).cursor[infd.id()],
         out_off is Some ==> final(w).cursor[outfd.id()] == old(w).cursor[outfd.id()],
+        in_off is Some && out_off is Some ==> final(w).cursor == old(w).cursor,
         match r {
             Ok(n) => {
                 let pin = match in_off { Some(p) => *p as int, None => old(w).cursor[infd.id()] as int };
                 let pout = match out_off { Some(p) => *p as int, None => old(w).cursor[outfd.id()] as int };
-                let src = old(w).files[infd.inode()].bytes;
-                &&& final(w).faults == old(w).faults
-                &&& n <= len
-                &&& (n == 0 <==> (len == 0 || pin >= src.len()))
-                &&& pin + n <= src.len()
-                &&& (match in_off { Some(p) => *final(p) == pin + n, None => final(w).cursor[infd.id()] == pin + n })
-                &&& (match out_off { Some(p) => *final(p) == pout + n, None => final(w).cursor[outfd.id()] == pout + n })
-                &&& (infd.inode() != outfd.inode() ==>
-                        final(w).files == old(w).files.insert(outfd.inode(), fs_write(old(w).files[outfd.inode()], pout, sub(src, pin, n as int))))
-                &&& (forall|j: Inode| j != outfd.inode() ==> final(w).files[j] == old(w).files[j])
-                &&& final(w).trace == old(w).trace.push(Event::Write(outfd.inode(), pout, n as int))
+                &&& cfr_ok(*old(w), *final(w), infd, outfd, pin, pout, in_off is None, out_off is None, len as int, n as int)
+                &&& (match in_off { Some(p) => *final(p) == pin + n, None => true })
+                &&& (match out_off { Some(p) => *final(p) == pout + n, None => true })
             },
-            Err(_) => {
-                &&& final(w).faults == old(w).faults + 1 && final(w).files == old(w).files && final(w).trace == old(w).trace
-                &&& final(w).cursor == old(w).cursor
+            Err(e) => {
+                &&& cfr_err(*old(w), *final(w), e)
                 &&& (match in_off { Some(p) => *final(p) == *p, None => true })
                 &&& (match out_off { Some(p) => *final(p) == *p, None => true })
             },
@@ -335,7 +348,7 @@ pub fn copy_file_range(infd: &File, in_off: Option<&mut u64>, outfd: &File, out_
 /// ENXIO is an answer, not a fault.
 #[verifier::external_body]
 pub fn seek(fd: &File, from: SeekFrom, Tracked(w): Tracked<&mut World>) -> (r: std::result::Result<u64, Errno>)
-    ensures fr_data(*old(w), *final(w)), final(w).files == old(w).files, final(w).trace == old(w).trace,
+    ensures fr_data(*old(w), *final(w)), final(w).eintr_left == old(w).eintr_left, final(w).files == old(w).files, final(w).trace == old(w).trace,
         final(w).faults == old(w).faults + (if r is Err && r->Err_0 != Errno::NXIO { 1nat } else { 0 }),
         forall|i: FdId| i != fd.id() ==> final(w).cursor[i] == old(w).cursor[i],
         r is Ok ==> final(w).cursor[fd.id()] == r->Ok_0,
